@@ -2,7 +2,7 @@
    `orc` is the blob oracle (vellum / roaring / snappy decoding done by the harness co-process). *)
 From Coq Require Import List NArith ZArith Bool.
 Import ListNotations.
-Require Import Sx Bytes Footer Ref Spec Wire Layout SpecMerge.
+Require Import Sx Bytes Kernel Footer Ref Spec Wire Layout SpecMerge Iter Iter1 Automata Dict.
 Open Scope N_scope.
 
 (* ---- C20: (1 ops) with op 0 = AddRef, 1 = DecRef/Close ---- *)
@@ -81,6 +81,102 @@ Definition h_spec_merge (args : list sx) : sx :=
   | _ => sxerr 5
   end.
 
+(* ---- C07: (6 mode ndocs onehit hits runs) ----
+   hits : ((doc freq norm (loc ...)) ...) with opaque locations;
+   runs : ((exceptIsNil (E...) replaced (R...) inclFN inclLocs (target ...)) ...), target 0 = Next;
+   answer : per run, per call: () for nil or (doc freq norm (loc ...)) *)
+Definition ihit_of_sx (s : sx) : option (Iter.hit sx) :=
+  match s with
+  | L [A d; A fr; A nm; L ls] => Some (d, {| Iter.e_freq := fr; Iter.e_norm := nm; Iter.e_locs := ls |})
+  | _ => None
+  end.
+Definition sx_of_iout (o : Iter.out sx) : sx :=
+  match o with
+  | None => L []
+  | Some (d, fr, nm, ls) => L [A d; A fr; A nm; L ls]
+  end.
+Definition iter_run (P : list (Iter.hit sx)) (cs : N) (onehit : bool) (r : sx) : option sx :=
+  match r with
+  | L [exNil; ex; repl; rs; fn; lc; ops] =>
+      match getBool exNil, getLA ex, getBool repl, getLA rs, getBool fn, getBool lc, getLA ops with
+      | Some exNil', Some ex', Some repl', Some rs', Some fn', Some lc', Some ops' =>
+          let E := fun d => existsb (N.eqb d) ex' in
+          let outs :=
+            if onehit then
+              match P with
+              | (d, e) :: _ => run1 sx (Iter.e_norm sx e) fn' (init1 d E) ops'
+              | [] => []
+              end
+            else if repl' then
+              run_impl sx P cs fn' lc' {| allr := P; actr := rs'; shared := false; rd := None |} ops'
+            else if exNil' then run_impl sx P cs fn' lc' (init_clean sx P) ops'
+            else run_impl sx P cs fn' lc' (init_filtered sx P E) ops' in
+          Some (L (map sx_of_iout outs))
+      | _, _, _, _, _, _, _ => None
+      end
+  | _ => None
+  end.
+Definition h_iter (args : list sx) : sx :=
+  match args with
+  | [A mode; A ndocs; oh; L hs; L runs] =>
+      match getBool oh, mapo ihit_of_sx hs with
+      | Some oh', Some P =>
+          match chunk_size_spec mode (N.of_nat (length P)) ndocs with
+          | (_, true) => sxerr 61
+          | (cs, false) =>
+              match mapo (iter_run P cs oh') runs with
+              | Some rs => L rs
+              | None => sxerr 62
+              end
+          end
+      | _, _ => sxerr 63
+      end
+  | _ => sxerr 64
+  end.
+
+(* ---- C08: (7 file field aut lo hi) -> ((term count) ...) as DictionaryIterator reports them ---- *)
+Fixpoint re_of_sx (fuel : nat) (s : sx) : option re :=
+  match fuel with
+  | O => None
+  | S f =>
+    match s with
+    | L [A 0] => Some REmpty
+    | L [A 1] => Some REps
+    | L [A 2; A c] => Some (RChr c)
+    | L [A 3] => Some RAny
+    | L [A 4; a; b] => match re_of_sx f a, re_of_sx f b with Some x, Some y => Some (RCat x y) | _, _ => None end
+    | L [A 5; a; b] => match re_of_sx f a, re_of_sx f b with Some x, Some y => Some (RAlt x y) | _, _ => None end
+    | L [A 6; a] => match re_of_sx f a with Some x => Some (RStar x) | None => None end
+    | _ => None
+    end
+  end.
+Definition aut_of_sx (s : sx) : option aut :=
+  match s with
+  | L [A 0] => Some AAll
+  | L [A 1] => Some ANever
+  | L [A 2; B t] => Some (AExact t)
+  | L [A 3; B t] => Some (APrefix t)
+  | L [A 4; B q; A d] => Some (ALev q (N.to_nat d))
+  | L [A 5; r] => match re_of_sx 64 r with Some x => Some (ARegex x) | None => None end
+  | _ => None
+  end.
+Definition bound_of_sx (s : sx) : option (option str) :=
+  match s with L [] => Some None | L [B b] => Some (Some b) | _ => None end.
+Definition h_dict (orc : sx -> sx) (args : list sx) : sx :=
+  match args with
+  | [B file; B field; a; lo; hi] =>
+      match aut_of_sx a, bound_of_sx lo, bound_of_sx hi with
+      | Some a', Some lo', Some hi' =>
+          match dict_entries (orc_fst orc) (orc_nums 2 orc) file field with
+          | Some es => L [L (map (fun e => L [B (fst e); A (snd e)]) (dict_iter read_fixed es a' lo' hi'));
+                          A (N.of_nat (length es))]
+          | None => sxerr 71
+          end
+      | _, _, _ => sxerr 72
+      end
+  | _ => sxerr 73
+  end.
+
 Definition handle (orc : sx -> sx) (req : sx) : sx :=
   match req with
   | L (A k :: args) =>
@@ -89,6 +185,8 @@ Definition handle (orc : sx -> sx) (req : sx) : sx :=
       else if k =? 3 then h_spec_build args
       else if k =? 4 then h_parse orc args
       else if k =? 5 then h_spec_merge args
+      else if k =? 6 then h_iter args
+      else if k =? 7 then h_dict orc args
       else sxerr 0
   | _ => sxerr 0
   end.
